@@ -33,6 +33,16 @@ type Script struct {
 	// DynamicKeyAssigns counts assignments table[expr] = ... whose key is not a constant
 	DynamicKeyAssigns []int
 	Calls             []string // called function names (dotted), e.g. "string.gsub", "os.execute"
+	CallSites         []CallSite
+	curGuard          string
+}
+
+// CallSite is a function call with the condition of the innermost enclosing if.
+type CallSite struct {
+	Name  string
+	Args  []string
+	Guard string
+	Line  int
 }
 
 // Parse parses a Lua file.
@@ -82,7 +92,11 @@ func exprString(e ast.Expr) string {
 	case *ast.LogicalOpExpr:
 		return exprString(x.Lhs) + " " + x.Operator + " " + exprString(x.Rhs)
 	case *ast.FuncCallExpr:
-		return exprString(x.Func) + "(...)"
+		var as []string
+		for _, a := range x.Args {
+			as = append(as, exprString(a))
+		}
+		return exprString(x.Func) + "(" + strings.Join(as, ", ") + ")"
 	}
 	return fmt.Sprintf("%T", e)
 }
@@ -92,6 +106,11 @@ func (s *Script) walkExpr(e ast.Expr) {
 	case *ast.FuncCallExpr:
 		if x.Func != nil {
 			s.Calls = append(s.Calls, dotted(x.Func))
+			var as []string
+			for _, a := range x.Args {
+				as = append(as, exprString(a))
+			}
+			s.CallSites = append(s.CallSites, CallSite{Name: dotted(x.Func), Args: as, Guard: s.curGuard, Line: x.Line()})
 			s.walkExpr(x.Func)
 		}
 		if x.Receiver != nil {
@@ -191,8 +210,12 @@ func (s *Script) walk(stmts []ast.Stmt, top bool, guard string, inLoop bool) {
 		case *ast.IfStmt:
 			s.walkExpr(x.Condition)
 			g := exprString(x.Condition)
+			saved := s.curGuard
+			s.curGuard = g
 			s.walk(x.Then, false, g, inLoop)
+			s.curGuard = "not (" + g + ")"
 			s.walk(x.Else, false, "not ("+g+")", inLoop)
+			s.curGuard = saved
 		case *ast.WhileStmt:
 			s.walkExpr(x.Condition)
 			s.walk(x.Stmts, false, guard, true)
